@@ -128,7 +128,7 @@ def _is_close_store(ctx, sn, own=True):
         return False
     for t in st.targets:
         if isinstance(t, ast.Attribute) and t.attr == 'is_finished':
-            base = ctx.H.subst(t.value, sn.func, sn.cn)
+            base = ctx.H.subst_frames(t.value, sn)
             is_own = isinstance(base, ast.Attribute) and \
                 base.attr == '_operation'
             if is_own == own:
@@ -150,7 +150,7 @@ def r17_2(ctx, rc):
                 continue
             for t in cn.ast.targets:
                 if isinstance(t, ast.Attribute) and t.attr == 'is_finished':
-                    base = ctx.H.subst(t.value, f, cn)
+                    base = ctx.H.subst_callers(t.value, f, cn)
                     if not (isinstance(base, ast.Attribute) and
                             base.attr == '_operation'):
                         continue
